@@ -14,7 +14,7 @@ CLAIMS = {
             'trusted: extractor T1-T10, sequential view, std Path/iterator/DashMap shims, is_fixture_imported_in_file abstract, goto handler glue and word-at-cursor lookup not covered', '§5-C01'),
     'C02': ('proof', 'find_closest_definition_excluding is proved to compute op_resolve with the filter d != D; lemmas: the answer is never D, always a registered definition passing the filter.',
             'as C01; references handler glue not covered', '§5-C02'),
-    'C03': ('proof', 'AST -> record, for ALL rustpython ASTs (real AST types linked with --extern): the whole of decorators.rs (fixture / mark recognisers, name= / scope= / autouse= extraction, usefixtures names incl. nested lists/tuples, indirect parametrize), find_yield_line / find_yield_in_stmt / find_yield_in_expr, contains_yield, extract_docstring, extract_return_type / extract_yielded_type and collect_module_level_names are proved equal to recursive spec functions written from the documented forms; lemmas: exactly the documented decorator forms (look-alikes rejected), keyword extraction ignores non-constants, the two yield searches agree (false before fix 'contains_yield must look where find_yield_line looks'). The visitor that wires these into records (visit_stmt) is not covered; the comparison with CPython's parser is out of reach.',
+    'C03': ('proof', 'AST -> record, for ALL rustpython ASTs (real AST types linked with --extern): the whole of decorators.rs (fixture / mark recognisers, name= / scope= / autouse= extraction, usefixtures names incl. nested lists/tuples, indirect parametrize), find_yield_line / find_yield_in_stmt / find_yield_in_expr, contains_yield, extract_docstring, extract_return_type / extract_yielded_type and collect_module_level_names are proved equal to recursive spec functions written from the documented forms; lemmas: exactly the documented decorator forms (look-alikes rejected), keyword extraction ignores non-constants, the two yield searches agree (false before the contains_yield fix). The visitor that wires these into records (visit_stmt) is not covered; the comparison with CPython\'s parser is out of reach.',
             'trusted: generated AST type specs (tools/gen_astspec.py), iterator wrapper specs, string rendering uninterpreted', '§5-C03'),
     'C04': ('proof', 'find_references_for_definition is proved to return exactly the reverse-index bucket of the definition\'s name filtered by "this usage resolves to the definition" (op_refs), find_fixture_definition (go-to-definition) is proved to resolve the first recorded usage under the cursor with the same resolve_usage function; lemmas: an entry is listed iff it resolves to D, unresolved usages are listed nowhere, one list element per index entry, goto on a usage == resolve_usage of that usage. The mirror between usages and usage_by_fixture is proved per mutator (unit index_maint).',
             'trusted: as C01; wf clause unique_at_line assumed; code-lens / call-hierarchy / CLI counts glue not covered', '§5-C04'),
